@@ -1,0 +1,44 @@
+//go:build verif
+
+package radius
+
+// Verification hooks for the accounting manager (build tag "verif" only).
+//
+// verifCrashPoint(name) is called by one-line markers after every persistence /
+// transmit step of accounting.go.  The conformance harness installs a function
+// that (a) injects a crash at a chosen marker (it snapshots the persistence
+// directory and silences the RADIUS peer of that incarnation) and (b) uses the
+// "proc.begin" marker as a gate to schedule the pending-record processor
+// deterministically.  Without an installed function the markers do nothing.
+
+var verifCrashPointFn func(string)
+
+func verifCrashPoint(n string) {
+	if f := verifCrashPointFn; f != nil {
+		f(n)
+	}
+}
+
+// VerifSetCrashPointFn installs (or, with nil, removes) the marker callback.
+// Must be called before any manager is running.
+func VerifSetCrashPointFn(f func(string)) { verifCrashPointFn = f }
+
+// VerifSendInterim sends one Interim-Update for the session exactly as the
+// interim loop does for a session that is due (the loop's 10 s ticker and the
+// per-session due time are what is bypassed).  Reports whether the session is
+// active and not pending stop.
+func (am *AccountingManager) VerifSendInterim(sessionID string) bool {
+	am.sessionsMu.RLock()
+	session, ok := am.sessions[sessionID]
+	skip := ok && session.StopPending
+	am.sessionsMu.RUnlock()
+	if !ok || skip {
+		return false
+	}
+	am.sendInterimUpdate(session)
+	return true
+}
+
+// VerifKill ends the manager's workers the way a process death would: no drain,
+// nothing persisted.
+func (am *AccountingManager) VerifKill() { am.cancel() }
